@@ -97,7 +97,7 @@ def main(argv=None):
         except Exception as e:  # replay machinery failure must not hide the failed obligation
             rp = {"confirmed": None, "detail": "replay harness error: " + repr(e) + "\n" + traceback.format_exc()[-1500:]}
         rec["replay"] = rp
-        path = os.path.join(VERIF, "replays", f"{pid}-{re.sub(r'[^A-Za-z0-9_.-]', '_', job.name)}-{re.sub(r'[^A-Za-z0-9_.-]', '_', ob['id'])}.json")
+        path = os.path.join(F.OUT, "replays", f"{pid}-{re.sub(r'[^A-Za-z0-9_.-]', '_', job.name)}-{re.sub(r'[^A-Za-z0-9_.-]', '_', ob['id'])}.json")
         F.write_json(path, rec)
         if rp.get("confirmed") is False:
             spurious.append((job, ob, path))
@@ -128,7 +128,7 @@ def _evidence_fail(pid, tier, seed, t0, why):
     ev = {"property_id": pid, "tier": tier, "seed": seed, "level": "other",
           "coverage": {"explanation": why, "evaluations": 0, "distinct_nontrivial": 0},
           "assumptions": [], "wall_s": round(time.time() - t0, 2), "violations": 0}
-    F.write_json(os.path.join(VERIF, "evidence", pid + ".json"), ev)
+    F.write_json(os.path.join(F.OUT, "evidence", pid + ".json"), ev)
 
 
 def _evidence(pid, tier, seed, t0, plan, jobs, results, known_hits, vio, undecided, spurious, kf_by_id):
@@ -192,7 +192,7 @@ def _evidence(pid, tier, seed, t0, plan, jobs, results, known_hits, vio, undecid
     ev = {"property_id": pid, "tier": tier, "seed": seed, "level": "proof", "coverage": cov,
           "assumptions": plan.get("assumptions", []), "wall_s": round(time.time() - t0, 2),
           "violations": len(vio)}
-    F.write_json(os.path.join(VERIF, "evidence", pid + ".json"), ev)
+    F.write_json(os.path.join(F.OUT, "evidence", pid + ".json"), ev)
 
 
 if __name__ == "__main__":
